@@ -1141,7 +1141,11 @@ impl World {
             }
             ["pending"] => {
                 let t: Vec<String> = self.pending_tasks().iter().map(|t| t.0.to_string()).collect();
-                let n: Vec<String> = self.notes.iter().map(|n| n.0.to_string()).collect();
+                // grouped by key (stable sort): the order of notifications of different keys is the order in which
+                // waiting sender tasks happen to be polled once the channel has room; only the per-key order matters
+                let mut ns: Vec<&(u64, u64, LocalSwarmCmd)> = self.notes.iter().collect();
+                ns.sort_by_key(|n| n.1);
+                let n: Vec<String> = ns.iter().map(|n| n.0.to_string()).collect();
                 format!("t={} n={}", t.join(","), n.join(","))
             }
             ["metrics", k] => {
